@@ -57,7 +57,8 @@ impl UserId {
             Self::parse(id)
         } else {
             localpart_is_backwards_compatible(id_str)?;
-            Ok(Self::from_borrowed(&format!("@{id_str}:{server_name}")).to_owned())
+            // Validate the whole ID, it must not be longer than allowed.
+            Self::parse(format!("@{id_str}:{server_name}"))
         }
     }
 
@@ -74,7 +75,8 @@ impl UserId {
             Self::parse_rc(id)
         } else {
             localpart_is_backwards_compatible(id_str)?;
-            Ok(Self::from_rc(format!("@{id_str}:{server_name}").into()))
+            // Validate the whole ID, it must not be longer than allowed.
+            Self::parse_rc(format!("@{id_str}:{server_name}"))
         }
     }
 
@@ -91,7 +93,8 @@ impl UserId {
             Self::parse_arc(id)
         } else {
             localpart_is_backwards_compatible(id_str)?;
-            Ok(Self::from_arc(format!("@{id_str}:{server_name}").into()))
+            // Validate the whole ID, it must not be longer than allowed.
+            Self::parse_arc(format!("@{id_str}:{server_name}"))
         }
     }
 
